@@ -229,3 +229,14 @@ func IntakeRecommitCases(r *out.Run, g *out.Group, kp *KeyPool, thorough bool) {
 		}
 	}
 }
+
+// NoopWriter is a batch writer that accepts everything.
+type NoopWriter = noopWriter
+
+// EmptyStore is an operation store without any anchored operation.
+type EmptyStore struct{}
+
+// Get implements the operation store.
+func (EmptyStore) Get(string) ([]*operation.AnchoredOperation, error) {
+	return nil, fmt.Errorf("uniqueSuffix not found in the store")
+}
